@@ -197,11 +197,14 @@ def h_adjust_affine(ctx, n, k):
 
 # ---------------------------------------------------------------- model comparison
 
-def h_compare(ctx, sizes, with_priors, distinct=True):
+def h_compare(ctx, sizes, with_priors, distinct=True, int_priors=None):
     M = len(sizes)
     D = [[ctx.real('d%d_%d' % (m_, i)) for i in range(sizes[m_])] for m_ in range(M)]
     nsim = [ctx.int('nsim%d' % m_, 1, 1000) for m_ in range(M)]
     pri = [ctx.real('prior%d' % m_, 0, None, lo_open=True) for m_ in range(M)] if with_priors else None
+    if int_priors:
+        # prior weights given as integers (a list of ints or an integer ndarray), solver-chosen from {1,2,3}
+        pri = [1 + ctx.choice('int_prior%d' % m_, 3) for m_ in range(M)]
     allv = [v for row in D for v in row]
     if distinct:
         for a in range(len(allv)):
@@ -215,8 +218,15 @@ def h_compare(ctx, sizes, with_priors, distinct=True):
     perms = list(itertools.permutations(range(M)))
     perm = perms[ctx.choice('model_perm', len(perms))]
     with patched(std_bindings([ms], shadow_builtins=False)):
-        p = ms.compare_models(samples(range(M)), model_priors=ctx.array(pri) if pri else None)
-        q = ms.compare_models(samples(perm), model_priors=ctx.array([pri[m_] for m_ in perm]) if pri else None)
+        if int_priors == 'list':
+            p = ms.compare_models(samples(range(M)), model_priors=list(pri))
+            q = ms.compare_models(samples(perm), model_priors=[pri[m_] for m_ in perm])
+        elif int_priors == 'ndarray':
+            p = ms.compare_models(samples(range(M)), model_priors=np.array(pri, dtype=int))
+            q = ms.compare_models(samples(perm), model_priors=np.array([pri[m_] for m_ in perm], dtype=int))
+        else:
+            p = ms.compare_models(samples(range(M)), model_priors=ctx.array(pri) if pri else None)
+            q = ms.compare_models(samples(perm), model_priors=ctx.array([pri[m_] for m_ in perm]) if pri else None)
     ctx.claim('one_probability_per_model', len(p) == M)
     ctx.claim_poly('probabilities_sum_to_one', Sum(list(p)), 1)
     if distinct:
@@ -257,6 +267,10 @@ HARNESSES = [
     H('compare_2models_2_2', h_compare, dict(sizes=(2, 2), with_priors=True), bounds='2 models with 2 samples each, priors'),
     H('compare_2models_2_3_nopriors', h_compare, dict(sizes=(2, 3), with_priors=False), bounds='2 models, 2 and 3 samples, default priors'),
     H('compare_3models_2_2_2', h_compare, dict(sizes=(2, 2, 2), with_priors=True), bounds='3 models with 2 samples each', tiers=('thorough',)),
+    H('compare_2models_2_2_int_list_priors', h_compare, dict(sizes=(2, 2), with_priors=True, int_priors='list'),
+      bounds='2 models with 2 samples each, prior weights a list of Python ints from {1,2,3}'),
+    H('compare_2models_2_2_int_array_priors', h_compare, dict(sizes=(2, 2), with_priors=True, int_priors='ndarray'),
+      bounds='2 models with 2 samples each, prior weights an int64 ndarray with values from {1,2,3}'),
     H('compare_ties_2_2', h_compare, dict(sizes=(2, 2), with_priors=True, distinct=False), bounds='2 models, ties allowed: sum to one'),
 ]
 
